@@ -789,11 +789,11 @@ theorem parseDecls_sound (f : Nat) (acc : List Decl) (ts : List Tok) (ds : List 
           obtain ⟨p2, rest, ds', rfl, rfl, hd2, hst⟩ := ih _ _ h
           exact ⟨p1 ++ p2, rest, d :: ds', by rw [hp1]; simp, by simp, .cons hd1 hd2, hst⟩
 
-/-- `mal: declaration+ | EOF` as written (no EOF after the declarations): what `parseMal` returns is the meaning
-of a grammatical prefix, and it stops only where no declaration can start -/
-theorem parseMal_sound (ts : List Tok) (ds : List Decl) (h : parseMal ts = some ds) :
+/-- `mal: declaration+ | EOF` as written (no EOF after the declarations): what `parseMalPrefix` returns is the
+meaning of a grammatical prefix, and it stops only where no declaration can start -/
+theorem parseMalPrefix_sound (ts : List Tok) (ds : List Decl) (h : parseMalPrefix ts = some ds) :
     ∃ pre rest, ts = pre ++ rest ∧ DDecls pre rest ds ∧ StopsAt rest ∧ (ts ≠ [] → ds ≠ []) := by
-  unfold parseMal at h
+  unfold parseMalPrefix at h
   split at h
   · simp only [Option.some.injEq] at h; subst h
     exact ⟨[], [], rfl, .nil, .inl rfl, fun h => absurd rfl h⟩
@@ -813,6 +813,78 @@ theorem parseMal_sound (ts : List Tok) (ds : List Decl) (h : parseMal ts = some 
         rw [← h4.1] at h5; rw [h5] at hs; exact absurd hs (by simp)
     · exact absurd h (by simp)
 
+
+theorem parseDeclsRest_sound (f : Nat) (acc : List Decl) (ts : List Tok) (ds : List Decl) (rest : List Tok)
+    (h : parseDeclsRest f acc ts = some (ds, rest)) :
+    ∃ pre ds', ts = pre ++ rest ∧ ds = acc ++ ds' ∧ DDecls pre rest ds' ∧ StopsAt rest := by
+  induction f generalizing acc ts with
+  | zero => rw [parseDeclsRest_zero] at h; exact absurd h (by simp)
+  | succ f ih =>
+    cases ts with
+    | nil =>
+      rw [parseDeclsRest_nil] at h
+      simp only [Option.some.injEq, Prod.mk.injEq] at h
+      obtain ⟨rfl, rfl⟩ := h
+      exact ⟨[], [], rfl, by simp, .nil, .inl rfl⟩
+    | cons t r =>
+      cases hs : startsDecl t with
+      | false =>
+        rw [parseDeclsRest_stop _ _ _ _ hs] at h
+        simp only [Option.some.injEq, Prod.mk.injEq] at h
+        obtain ⟨rfl, rfl⟩ := h
+        exact ⟨[], [], rfl, by simp, .nil, .inr ⟨t, r, rfl, hs⟩⟩
+      | true =>
+        rw [parseDeclsRest_cons _ _ _ _ hs] at h
+        cases hd : parseDecl f (t :: r) with
+        | none => simp [hd] at h
+        | some x =>
+          obtain ⟨d, r1⟩ := x
+          simp only [hd, Option.bind_some] at h
+          obtain ⟨p1, hp1, hd1⟩ := parseDecl_sound _ _ _ _ hd
+          obtain ⟨p2, ds', rfl, rfl, hd2, hst⟩ := ih _ _ h
+          exact ⟨p1 ++ p2, d :: ds', by rw [hp1]; simp, by simp, .cons hd1 hd2, hst⟩
+
+/-- a derivation by `declaration*` of the empty token list derives no declaration, and conversely -/
+theorem ddecls_nil_iff {pre rest : List Tok} {ds : List Decl} (h : DDecls pre rest ds) : pre = [] ↔ ds = [] := by
+  cases h with
+  | nil => simp
+  | @cons p1 p2 _ d ds' hd hds =>
+    cases hd <;> simp
+
+/-- `parser.mal()`: the declarations returned are the meaning of the prefix in front of `rest`, which is handed back
+untouched; the parser stops only at the end of the input or at a token that cannot start a declaration -/
+theorem parseMalRest_sound (ts : List Tok) (ds : List Decl) (rest : List Tok)
+    (h : parseMalRest ts = some (ds, rest)) :
+    ∃ pre, ts = pre ++ rest ∧ DDecls pre rest ds ∧ StopsAt rest ∧ (ts ≠ [] → ds ≠ []) := by
+  unfold parseMalRest at h
+  split at h
+  · simp only [Option.some.injEq, Prod.mk.injEq] at h
+    obtain ⟨rfl, rfl⟩ := h
+    exact ⟨[], rfl, .nil, .inl rfl, fun h => absurd rfl h⟩
+  · rename_i t r
+    split at h
+    · rename_i hs
+      obtain ⟨pre, ds', h1, h2, h3, h4⟩ := parseDeclsRest_sound _ _ _ _ _ h
+      simp only [List.nil_append] at h2; subst h2
+      refine ⟨pre, h1, h3, h4, fun _ hds => ?_⟩
+      have hpre : pre = [] := (ddecls_nil_iff h3).mpr hds
+      subst hpre
+      simp only [List.nil_append] at h1
+      subst h1
+      rcases h4 with h4 | ⟨t', r', h4, h5⟩
+      · exact absurd h4 (by simp)
+      · simp only [List.cons.injEq] at h4
+        rw [← h4.1] at h5; rw [h5] at hs; exact absurd hs (by simp)
+    · exact absurd h (by simp)
+
+/-- **the compiler's verdict** (`parser.mal()` and then `EOF`): the WHOLE token list is derived by `declaration*`;
+non-empty input gives at least one declaration -/
+theorem parseMal_sound (ts : List Tok) (ds : List Decl) (h : parseMal ts = some ds) :
+    DDecls ts [] ds ∧ (ts ≠ [] → ds ≠ []) := by
+  obtain ⟨pre, h1, h2, _, h4⟩ := parseMalRest_sound ts ds [] ((parseMal_eq_some_iff ts ds).mp h)
+  simp only [List.append_nil] at h1
+  subst h1
+  exact ⟨h2, h4⟩
 
 
 /-! ### consumed prefixes of the remaining functions -/
